@@ -1,8 +1,8 @@
 package harness
 
 import (
-	"errors"
 	"encoding/json"
+	"errors"
 	"flag"
 	"fmt"
 	"os"
@@ -19,7 +19,6 @@ func TestMain(m *testing.M) {
 	writeStats()
 	os.Exit(code)
 }
-
 
 // TestReplay re-executes the files listed in $VERIF_REPLAY_FILES (separated by
 // ':') and prints one line per file: "REPLAY <file> PASS" or
